@@ -1,4 +1,4 @@
-// GENERATED on every run by vlib/extract.py from /tmp/seedcheck-20768 -- do not edit
+// GENERATED on every run by vlib/extract.py from /tmp/seedcheck-373 -- do not edit
 #![allow(unused_imports, unused_variables, unused_mut, dead_code, unused_parens, unused_braces, non_snake_case)]
 use vstd::prelude::*;
 
@@ -338,7 +338,12 @@ pub fn copy_as_lowercase(s: &str) -> (r: SmallString)
     ensures !(state is MixedUnicode) ==> it.index@ == s@.len(),
 {
         if x_lower_changes(c) {
-            state = if c.is_ascii() { State2::MixedAscii } else { State2::MixedUnicode };
+            if c.is_ascii() {
+                state = State2::MixedAscii;
+            } else {
+                state = State2::MixedUnicode;
+            }
+            break;
         }
     }
     
